@@ -12,7 +12,7 @@ combinations, sets with every index, 16 dimension pairs, hostile text, library-m
 import os
 import re
 
-from .. import build, codec, common as C, gen_driver as G, schema as S
+from .. import refmodel as R, build, codec, common as C, gen_driver as G, schema as S
 from ..findings import Report
 
 
@@ -199,6 +199,21 @@ def main():
             rep.cov.setdefault("rejected", []).append([sc.name, p.gen["out"].strip().splitlines()[-1][-160:] if p.gen["out"].strip() else ""])
             continue
         preps.append(p)
+    # --schema-name: the package attribute is not a C++ name at all, the namespace / directory comes from the option
+    sn = S.corpus()[4].clone()
+    sn.package = sn.name = "layout_sn"
+    psn = codec.Prepared.__new__(codec.Prepared)
+    psn.schema, psn.model = sn, R.Model(sn)
+    psn.xml = sn.to_xml().replace('package="layout_sn"', 'package="com.example.layout-v2"', 1)
+    psn.gen = build.gen_headers(psn.xml, "rel", extra_args=("--schema-name", "layout_sn"))
+    psn.ok = psn.gen["rc"] == 0
+    psn.dep = C.sha(psn.xml)
+    if psn.ok:
+        from .. import gen_driver as GDR
+        psn.src = GDR.Gen(sn).generate()
+        preps.append(psn)
+    else:
+        rep.inconc("sbeppc rejected --schema-name layout_sn for package com.example.layout-v2: %s" % psn.gen["out"][-200:])
     raws = []
     for name, xml in special_raw():
         g = build.gen_headers(xml, "rel")
